@@ -102,10 +102,13 @@ def run(R):
     xi = z3.Int("x")
     captured = {}
 
-    def kstub(ctx, args):
-        z = args[0].t
-        captured.setdefault("z", []).append((ctx.cond, z))
-        return E.IV(ATANK(z), 64)
+    def kstub_factory(store):
+        def kstub_(ctx, args):
+            z = args[0].t
+            store.setdefault("z", []).append((ctx.cond, z))
+            return E.IV(ATANK(z), 64)
+        return kstub_
+    kstub = kstub_factory(captured)
     oi = E.Opts(int_mode=True, stubs={KSYM: kstub})
     ck = R.call(hk, "atan", [xi], opts=oi)
     ck.encode()
@@ -147,6 +150,7 @@ def run(R):
              z3.And(ck.out >= 0, ck.out <= PIDIV2), portfolio=("z3", "cvc5"), timeout=300,
              note="0 <= atan(x) <= fixpidiv2 for every x in [159744, 2^47), given the kernel bound that follows from Lemma B; "
                   "below 159744 the accuracy pieces bound the result; negative x by oddness")
+    monotone_and_atan2(R, h, hk, oi, kstub_factory, PIDIV2, kp, dp)
     vec = {"atan": [[v] for v in (0, 1, 28671, 28672, 45056, 77824, 159743, 159744, 1 << 20, 1 << 30, (1 << 40) + 5,
                                   (1 << 45) + 12345, (1 << 46) + 999, (1 << 47) - 1, -5, -(1 << 33))]}
     import math
@@ -156,3 +160,107 @@ def run(R):
         return B.to_signed(h.native("g++", "-O0").run([("kernel", [B.to_unsigned(z, 64)])])[0], 64)
     if R.selfcheck_units(hk, vec, opts=oi, uf_eval={"ATANK": kern}):
         raise Unsupported("INT encoding disagrees with the native build (see ENCODER-MISMATCH lines)")
+
+
+ATANF = z3.Function("ATANF", s64, s64)
+
+
+def monotone_and_atan2(R, h, hk, oi, kstub_factory, PIDIV2, kp, dp):
+    # ------------------------------------------------------------------ weak monotonicity
+    # (1) adjacent steps on the directly verified range [0, 159744): atan(x) <= atan(x+1)
+    # (2) kernel adjacent steps on [0, ZMAX]: kernel(z) <= kernel(z+1)
+    # (3) x >= 159744: the kernel argument is monotone in x (INT), result = K + kernel(z) resp. pi/2 - kernel(z)
+    # together: x <= y => atan x <= atan y + 1 ulp on [0, 2^47) (the property allows 2), and by oddness on (-2^47, 0]
+    for (lo, hi, bits) in dp + kp:
+        unit = "kernel" if hi < SEG1 else "atan"
+        if lo >= SEG1:
+            unit = "atan"
+        x, ins, dom = O.piece_var(lo, hi, bits)
+        c1, c2 = R.call(h, unit, [x]), R.call(h, unit, [x + 1])
+        goal = c1.out <= c2.out
+        if unit == "kernel":
+            goal = z3.And(goal, c2.out <= c1.out + 1)       # used for the weak monotonicity of segment x >= 39/16
+        R.verify("%s/mono/[%d,%d]" % (unit, lo, hi), ins, [c1, c2], dom, goal, portfolio=("z3",),
+                 timeout=300 if R.quick() else 900, note="adjacent-step monotonicity %s(x) <= %s(x+1)%s on the piece" % (
+                     unit, unit, " <= kernel(x) + 1" if unit == "kernel" else ""))
+    xi = z3.Int("x")
+    st1, st2 = {}, {}
+    c1 = R.call(hk, "atan", [xi], opts=E.Opts(int_mode=True, stubs={KSYM: kstub_factory(st1)}))
+    c2 = R.call(hk, "atan", [xi + 1], opts=E.Opts(int_mode=True, stubs={KSYM: kstub_factory(st2)}))
+    c1.encode()
+    c2.encode()
+
+    def sel(store):
+        z = z3.IntVal(0)
+        for cond, t in store.get("z", []):
+            z = z3.If(cond, t, z)
+        return z
+    z1, z2 = sel(st1), sel(st2)
+    T32 = 1 << 32
+    # segment 39/16 <= x < 65536: the computed kernel argument z is NOT monotone (the truncated denominator makes a sawtooth),
+    # but z - Z* lies in (-1, 1/10] with Z* = (x-c)/(1+xc) increasing (calculus), hence x <= y => z(x) <= z(y) + 1, and with
+    # kernel(z) <= kernel(z+1) <= kernel(z) + 1:  atan(x) <= atan(y) + 1 ulp on the segment
+    cN = SEG5
+    Nn = (xi - cN) * (1 << 32)
+    Dd = (1 << 32) + xi * cN
+    dzz = z1 * Dd - Nn
+    R.verify("atan/mono/kernel-argument/39/16<=x<65536", [xi], [c1], z3.And(xi >= SEG5, xi < T32),
+             z3.And(dzz > -Dd, 10 * dzz <= Dd), portfolio=("z3", "cvc5"), timeout=300,
+             note="segment x >= 39/16: -1 < z - (x-c)/(1+xc) <= 1/10 for the kernel argument z as computed, every x")
+    R.verify("atan/mono/kernel-argument/x>=65536", [xi], [c1, c2], z3.And(xi >= T32, xi + 1 < LIM), z1 >= z2,
+             portfolio=("z3", "cvc5"), timeout=300,
+             note="x >= 65536: the kernel argument 1/x as computed is non-increasing in x (result = pi/2 - kernel)")
+    for (u, v) in ((SEG1 - 1, SEG1), (SEG5 - 1, SEG5), (T32 - 1, T32)):
+        ca, cb = R.call(h, "atan", [val(u)]), R.call(h, "atan", [val(v)])
+        R.verify("atan/mono/boundary-%d" % v, [], [ca, cb], z3.BoolVal(True), ca.out <= cb.out,
+                 note="the two sides of a segment boundary are ordered")
+    # ------------------------------------------------------------------ atan2
+    h2 = R.harness("atan2", [UNITS[2]], noinline=[ATAN_SYM])
+    y, x = BV("y"), BV("x")
+    PHI = 205887
+    cap = []
+
+    def astub(ctx, args):
+        q = args[0]
+        cap.append((ctx.cond, q))
+        r = ATANF(q)
+        # contract of atan proved above: odd, 0 <= atan(q) <= fixpidiv2 for q >= 0
+        ctx.assume(z3.And(z3.Implies(q >= 0, z3.And(r >= 0, r <= val(PIDIV2))),
+                          z3.Implies(z3.And(q < 0, q != val(INT64_MIN)), z3.And(r <= 0, r >= val(-PIDIV2))),
+                          z3.Implies(q == 0, r == 0)))
+        return r
+    o2 = E.Opts(stubs={ATAN_SYM: astub}, div_spec=True, mul_uf=True)
+    c = R.call(h2, "atan2", [y, x], opts=o2)
+    c.encode()
+    D = z3.And(y < val(LIM), y > val(-LIM), x < val(LIM), x > val(-LIM))
+    qsel = val(0)
+    for cond, q in cap:
+        qsel = z3.If(cond, q, qsel)
+    R.assume_note("atan2: fixedmath::atan is kept out of line and replaced by an uninterpreted function with the contract proved "
+                  "above (odd, 0 <= atan q <= fixpidiv2 for q >= 0, atan 0 = 0); accuracy 8e-5 = 5e-5 (atan) + 1 ulp (quotient, "
+                  "atan is 1-Lipschitz) + |phi - pi| <= %s ulp, a constant inequality" % mp.nstr(TOL + 1 + abs(PHI - mp.pi * 65536), 5))
+    R.verify("atan2/origin-nan", [y, x], [c], z3.And(y == 0, x == 0), isnan_raw(c.out))
+    R.verify("atan2/x-zero", [y, x], [c], z3.And(D, x == 0, y != 0),
+             c.out == z3.If(y > 0, val(PIDIV2), val(-PIDIV2)), note="x == 0: exactly +-fixpidiv2 by the sign of y")
+    R.verify("atan2/y-zero", [y, x], [c], z3.And(D, y == 0, x != 0), c.out == z3.If(x > 0, val(0), val(PHI)),
+             note="y == 0: 0 for x > 0, phi for x < 0")
+    R.verify("atan2/sign", [y, x], [c], z3.And(D, z3.Or(x != 0, y != 0)),
+             z3.And(z3.Implies(y > 0, c.out >= 0), z3.Implies(y < 0, c.out <= 0), z3.Not(isnan_raw(c.out))),
+             note="never negative for y > 0, never positive for y < 0, never NaN away from the origin")
+    # structure: result = atan(q) [+ phi | - phi] with q the truncated quotient y/x:  |q*x - y*2^16| < |x|
+    Wd = 128
+    prod = E.mulw(Wd)(z3.simplify(sx(qsel, Wd)), z3.simplify(sx(x, Wd)))
+    num = sx(y, Wd) * val(65536, Wd)
+    err = prod - num
+    absx = sabs(sx(x, Wd))
+    shape = z3.Or(z3.And(x > 0, c.out == ATANF(qsel)),
+                  z3.And(x < 0, y >= 0, c.out == ATANF(qsel) + val(PHI)),
+                  z3.And(x < 0, y < 0, c.out == ATANF(qsel) - val(PHI)))
+    R.verify("atan2/is-atan-of-quotient", [y, x], [c], z3.And(D, x != 0), z3.And(shape, err < absx, err > -absx),
+             also_ub=True, portfolio=("z3", "cvc5"),
+             note="x != 0: atan2(y,x) = atan(q) (+ phi for x<0<=y, - phi for x<0, y<0) with q within one ulp of y/x, no UB")
+    bud = TOL + 1 + abs(PHI - mp.pi * 65536)
+    R.extra_cov["atan2_error_budget_ulp"] = {"total": mp.nstr(bud, 6), "allowed": mp.nstr(mp.mpf("8e-5") * 65536, 6)}
+    R.verify("atan2/error-budget", [], [], z3.BoolVal(True), z3.BoolVal(bool(bud <= mp.mpf("8e-5") * 65536)),
+             note="5e-5 + 1 ulp + |phi - pi| <= 8e-5")
+    R.witness("atan2/reach-third-quadrant", [y, x], [c], z3.And(D, x < 0, y < 0), c.out < val(-PIDIV2))
